@@ -192,6 +192,38 @@ fn key_expect(kem: Kem, ikm: &[u8], n: usize) -> Vec<Vec<u8>> {
         .collect()
 }
 
+/// a party whose every operation FAILS (small-order keys, tampered single-shot open): error paths run between the
+/// other parties' operations
+struct FailingScript {
+    fx: Arc<Fix>,
+}
+impl Script for FailingScript {
+    fn step(&mut self, i: usize) -> Vec<u8> {
+        let fx = self.fx.clone();
+        let ops = hpke_mc::suites::suite_ops(fx.suite);
+        match i % 3 {
+            0 => {
+                let m = ModeSpec { kind: 2, psk: vec![], psk_id: vec![], sk_s: vec![], pk_s: vec![0u8; 32] };
+                enc_err(ops.setup_receiver(&m, &fx.k.sk_r, &fx.enc, &fx.info).map(|_| vec![]), |v| v)
+            }
+            1 => enc_err(ops.setup_sender(&fx.m, &[0u8; 32], &fx.info, &mut ScriptRng::new(&fx.k.ikm_e)).map(|_| vec![]), |v| v),
+            _ => {
+                let mut ct = fx.msgs[0].2.clone();
+                ct[0] ^= 1;
+                enc_err(ops.single_shot_open(&fx.m, &fx.k.sk_r, &fx.enc, &fx.info, &ct, &fx.msgs[0].1), |v| v)
+            }
+        }
+    }
+}
+fn failing_expect() -> Vec<Vec<u8>> {
+    vec![
+        enc_err(Obs::<Vec<u8>>::Err(hpke::HpkeError::DecapError), |v| v),
+        enc_err(Obs::<Vec<u8>>::Err(hpke::HpkeError::EncapError), |v| v),
+        enc_err(Obs::<Vec<u8>>::Err(hpke::HpkeError::OpenError), |v| v),
+        enc_err(Obs::<Vec<u8>>::Err(hpke::HpkeError::DecapError), |v| v),
+    ]
+}
+
 type Factory = Arc<dyn Fn() -> Box<dyn Script> + Send + Sync>;
 
 struct ScriptDef {
@@ -235,6 +267,10 @@ fn script_defs(seed: u64) -> Vec<ScriptDef> {
         v.push(ScriptDef { name: "S2 sender beta".into(), expect: sender_expect(&fb), make: Arc::new(move || Box::new(SenderScript::<AesGcm128, HkdfSha512, DhP256HkdfSha256> { fx: f.clone(), ctx: None })) });
     }
     v.push(ScriptDef { name: "K5 keys P-256".into(), expect: key_expect(Kem::P256, b"k5", 4), make: Arc::new(|| Box::new(KeyScript::<DhP256HkdfSha256> { ikm: b"k5".to_vec(), _p: Default::default() })) });
+    {
+        let f = fa.clone();
+        v.push(ScriptDef { name: "F7 failing party alpha".into(), expect: failing_expect(), make: Arc::new(move || Box::new(FailingScript { fx: f.clone() })) });
+    }
     v
 }
 
@@ -1938,6 +1974,8 @@ fn main() {
     let mut sets = vec![(vec![0usize, 1, 2], 3usize, placements3, 3usize)];
     sets.push((vec![0, 3, 5], 3, vec![Placement::Inline, Placement::Migrate], 3));
     sets.push((vec![4, 6, 2], 3, vec![Placement::Inline], 3));
+    // error paths in between: a party whose operations all fail, next to a sender and a receiver on the same KEM
+    sets.push((vec![7, 0, 4], 3, vec![Placement::Inline, Placement::Migrate], 3));
     if t {
         sets.push((vec![0, 1, 2, 3], 3, vec![Placement::Inline], 4));
         sets.push((vec![0, 1, 2], 4, vec![Placement::Inline, Placement::Migrate], 3));
